@@ -260,6 +260,9 @@ func genNodeExpr(r *rand.Rand, its []IT) KExpr {
 	}
 }
 
+// FixExprs normalises nil / operand-less expressions.
+func FixExprs(p *Pod) { fixExprs(p) }
+
 func fixExprs(p *Pod) {
 	fix := func(es []KExpr) {
 		for i := range es {
